@@ -6,10 +6,14 @@
 package nodescoord
 
 import (
+	"bufio"
 	"bytes"
 	"crypto/sha256"
 	"encoding/binary"
+	"encoding/json"
 	"fmt"
+	"io"
+	"os"
 	"sort"
 	"sync"
 
@@ -26,6 +30,7 @@ import (
 	"github.com/ElrondNetwork/elrond-go/storage"
 	"github.com/ElrondNetwork/elrond-go/storage/lrucache"
 	"github.com/ElrondNetwork/elrond-go/testscommon/nodeTypeProviderMock"
+	"verif/harness/internal/vtrace"
 )
 
 // MetaOut is how the metachain shard id (0xFFFFFFFF, not a TLC integer) is written in traces/behaviours.
@@ -676,4 +681,34 @@ func (p *Peers) Infos() []Info {
 		r = append(r, *a)
 	}
 	return r
+}
+
+// EachBehaviour streams an ndjson behaviour file (one JSON array of steps per line) without holding it in memory.
+func EachBehaviour(path string, f func(i int, b []vtrace.Step) error) (int, error) {
+	fh, err := os.Open(path)
+	if err != nil {
+		return 0, err
+	}
+	defer fh.Close()
+	r := bufio.NewReaderSize(fh, 1<<20)
+	n := 0
+	for {
+		line, err := r.ReadBytes('\n')
+		if len(line) > 1 {
+			var b []vtrace.Step
+			if e := json.Unmarshal(line, &b); e != nil {
+				return n, fmt.Errorf("behaviour line %d: %v", n+1, e)
+			}
+			if e := f(n, b); e != nil {
+				return n, e
+			}
+			n++
+		}
+		if err == io.EOF {
+			return n, nil
+		}
+		if err != nil {
+			return n, err
+		}
+	}
 }
